@@ -5,7 +5,6 @@ import (
 	"reflect"
 
 	"github.com/libsv/go-bt/v2"
-	"github.com/libsv/go-bt/v2/bscript"
 )
 
 // ToLibLoose is ToLib for models that may contain inputs *without* a previous
@@ -14,7 +13,7 @@ import (
 // produces an input whose PreviousTxID() is empty.
 func ToLibLoose(m Tx) *bt.Tx {
 	tx := &bt.Tx{Version: m.Version, LockTime: m.LockTime, Inputs: make([]*bt.Input, 0, len(m.In))}
-	for _, in := range m.In {
+	for n, in := range m.In {
 		i := &bt.Input{PreviousTxOutIndex: in.Vout, SequenceNumber: in.Seq, PreviousTxSatoshis: in.PrevSats}
 		if len(in.TxID) != 0 {
 			if err := i.PreviousTxIDAdd(append([]byte{}, in.TxID...)); err != nil {
@@ -22,15 +21,15 @@ func ToLibLoose(m Tx) *bt.Tx {
 			}
 		}
 		if !in.UnlockNil {
-			i.UnlockingScript = bscript.NewFromBytes(Canary(in.Unlock))
+			i.UnlockingScript = LibScript(in.Unlock, n+len(m.Out)+int(m.LockTime%7))
 		}
 		if !in.PrevNil {
-			i.PreviousTxScript = bscript.NewFromBytes(Canary(in.PrevScript))
+			i.PreviousTxScript = LibScript(in.PrevScript, n+len(m.In)+int(m.Version%5))
 		}
 		tx.Inputs = append(tx.Inputs, i)
 	}
-	for _, o := range m.Out {
-		tx.Outputs = append(tx.Outputs, &bt.Output{Satoshis: o.Sats, LockingScript: bscript.NewFromBytes(Canary(o.Script))})
+	for n, o := range m.Out {
+		tx.Outputs = append(tx.Outputs, &bt.Output{Satoshis: o.Sats, LockingScript: LibScript(o.Script, n+len(m.In)+int(m.LockTime%3))})
 	}
 	return tx
 }
